@@ -31,7 +31,7 @@ type Node struct {
 type grantEvent struct {
 	step int
 	role string
-	conn int
+	conn string
 	mode lockMode
 }
 
@@ -209,11 +209,11 @@ func (inst *Inst) onUnlock(r *lockReq) {
 	}
 }
 
-func connID(c *simConn) int {
+func connID(c *simConn) string {
 	if c == nil {
-		return 0
+		return ""
 	}
-	return c.id
+	return c.name
 }
 
 // killConns resets every connection that touches this instance.
